@@ -69,6 +69,38 @@ def _short(r: Role) -> str:
     return r.short()
 
 
+def connected(ctx, fn, it, R, rule: str = 'C03.T5') -> int:
+    """Every worker that takes part in the flow (its output is subscribed to, or it is handed to extend/use/Trunk/Segment)
+    has its input ports fed: each port 0..szin-1 for a constant arity, at least one loop-indexed subscription for a symbolic
+    arity.  Trainer forks are fed through train(); source workers (szin 0) have nothing to feed.  Returns #workers checked."""
+    events = it.events
+    trained = {id(e.data['worker']) for e in events if e.kind == 'train'}
+    returned = set()
+    for val, _ in it.returned:
+        for v in (val.elts if isinstance(val, roles.VTuple) else [val]):
+            if isinstance(v, roles.VWorker):
+                returned.add(id(v))
+    n = 0
+    for w in it.workers:
+        if id(w) in trained:
+            continue
+        consumed = any(e.kind == 'subscribe' and isinstance(e.data['pub'], roles.VPub) and e.data['pub'].kind == 'port' and e.data['pub'].ref.worker is w for e in events)
+        passed = any(e.kind in ('trunk-extend', 'trunk', 'trunk-use', 'seg-extend') and any(v is w for v in list(e.data.get('args', {}).values()) + [e.data.get('tail'), e.data.get('right')]) for e in events)
+        if not (consumed or passed or id(w) in returned):
+            continue
+        szin = w.group.szin
+        if isinstance(szin, roles.VInt) and szin.var is None and szin.b == 0:
+            continue
+        keys = [k for k, _ in R.worker_inputs(w)]
+        n += 1
+        if isinstance(szin, roles.VInt) and szin.var is None:
+            missing = [i for i in range(szin.b) if (0, None, i) not in keys and not any(k is not None and k[1] is not None for k in keys)]
+            ctx.check(not missing, rule, fn, f'{w!r} takes part in the flow but its input port(s) {missing} are never subscribed', w.node, key=f'T5:{core.stmt_key(w.node)}')
+        else:
+            ctx.check(bool(keys), rule, fn, f'{w!r} (arity {szin!r}) takes part in the flow but none of its input ports is subscribed', w.node, key=f'T5:{core.stmt_key(w.node)}')
+    return n
+
+
 def operators(ctx) -> None:
     prog = ctx.prog
     composable = prog.cls(f'{MEMBER}:Composable')
@@ -77,7 +109,7 @@ def operators(ctx) -> None:
         if 'compose' in ci.methods and ci.ref not in (f'{MEMBER}:Origin', f'{MEMBER}:Compound', 'forml.flow._suite.clean:Stateless'):
             targets.append(prog.func(f'{ci.ref}.compose'))
     ctx.floor('C03.compose-methods', len(targets), 10)
-    ntrain = nsub = 0
+    ntrain = nsub = nconn = 0
     for fn in sorted(targets, key=lambda f: f.ref):
         it = roles.interpret(prog, fn)
         R = roles.Roles(it, {'features': Role(TRAIN, 'WHOLE'), 'labels': Role(LABEL, 'WHOLE')})
@@ -157,6 +189,8 @@ def operators(ctx) -> None:
                             modes = {r.mode for r in rs if r.mode}
                             if modes:
                                 ctx.check(modes == {want} or (want == LABEL and modes <= {LABEL, TRAIN}), 'C03.T2', fn, f'the tail closing the {mode} segment is fed {sorted(modes)} data', x.node, key=f'T2:{mode}:tail')
+        # T5: no dangling input - a worker whose output is consumed (or that is handed to extend/use/Trunk) has every input fed
+        nconn += connected(ctx, fn, it, R)
         # sharing: a segment of an expanded trunk is subscribed at most once
         for key, evs in R.subs.items():
             if key[0] == 'seg':
@@ -166,6 +200,7 @@ def operators(ctx) -> None:
                         ctx.check(len(evs) <= 1, 'C03.sharing', fn, f'segment {s!r} of an expanded scope is subscribed once (a second subscription would feed one graph from two publishers)', evs[-1].node, key=f'sharing:{s.mode}')
         ctx.sample({'operator': fn.ref, 'events': {k: sum(1 for e in events if e.kind == k) for k in ('expand', 'worker', 'train', 'subscribe', 'trunk-extend', 'trunk-use', 'trunk')}})
     ctx.floor('C03.train-sites', ntrain, 6)
+    ctx.floor('C03.connected-workers', nconn, 12)
     ctx.floor('C03.segment-args', nsub, 12)
 
 
@@ -368,6 +403,7 @@ def run(ctx) -> None:
     wrap_label_order(ctx)
     wrap_decorators(ctx)
     flow_api(ctx)
+    C12.fullstack(ctx)
     C12.ensembler(ctx)  # discharges the roles assumed for `folds` in the stacking builders (Fold fields come from the fold's own scope segments)
     primitives(ctx)
     shared.argname_scope(ctx, ('forml.flow._suite', 'forml.flow._graph', 'forml.pipeline', 'forml.evaluation._stage'), floor=2)
